@@ -314,7 +314,61 @@ def _enum_eq(fn, args, known):
     return names[0] == names[1]
 
 
-def peval(fn, start, known, max_paths=400, max_steps=60000):
+PEVAL_PROG = None      # set by core.run_check: the Program whose bodies a call may be followed into (one level, pure helpers)
+
+
+def _callee_constant(fn, t, known, depth):
+    """A call to a crate-local helper that is handed a place whose variant is fixed: if every returning path of the helper
+    yields the same integer/bool constant, that constant (else None)."""
+    from .panics import place_sig
+    if PEVAL_PROG is None or depth >= 1:
+        return None
+    cal = norm(t.get("res") or t.get("callee"))
+    g = PEVAL_PROG.fns.get(cal) if cal else None
+    if g is None or not g.file.startswith("src/") or len(g.blocks) > 40:
+        return None
+    sub = {}
+    for i, a in enumerate(t.get("args", [])):
+        pl = (a.get("move") or a.get("copy")) if isinstance(a, dict) else None
+        if pl is None:
+            continue
+        # the argument is the place itself or a fresh reference to it
+        cand = [pl]
+        cur, hops = pl, 0
+        while cur is not None and hops < 4:
+            nxt = None
+            if all(e == "*" for e in cur["p"]):
+                for (bi, k, st) in fn.whole_defs(cur["l"]):
+                    if k != "t" and st["rv"]["k"] == "ref":
+                        nxt = st["rv"]["of"]
+                    elif k != "t" and st["rv"]["k"] == "use" and isinstance(st["rv"]["a"], dict) and (st["rv"]["a"].get("copy") or st["rv"]["a"].get("move")):
+                        nxt = st["rv"]["a"].get("copy") or st["rv"]["a"].get("move")
+            if nxt is not None:
+                cand.append(nxt)
+            cur, hops = nxt, hops + 1
+        for c in cand:
+            sig = place_sig(fn, c)
+            if sig in known and i + 1 <= g.argc:
+                pname = g.locals[i + 1]["name"]
+                if pname:
+                    sub[pname] = known[sig]
+    if not sub:
+        return None
+    paths = peval(g, 0, sub, max_paths=60, max_steps=4000, _depth=depth + 1)
+    vals = set()
+    for p_ in paths:
+        if p_["end"] == "return":
+            vals.add(p_.get("ret"))
+        elif p_["end"] in ("panic", "unreachable"):
+            continue
+        else:
+            return None
+    if len(vals) == 1 and isinstance(next(iter(vals)), int):
+        return next(iter(vals))
+    return None
+
+
+def peval(fn, start, known, max_paths=400, max_steps=60000, _depth=0):
     """Walk the MIR from block `start` with the discriminants of some places fixed.
     known: {place_sig: variant name}; a `discr(place)` whose place_sig is in `known` evaluates to that variant's
     discriminant, bool/int constants are propagated, every other switch forks.
@@ -375,7 +429,8 @@ def peval(fn, start, known, max_paths=400, max_steps=60000):
             t = blk["t"]
             k = t["k"]
             if k == "return":
-                out.append(dict(end="return", block=b, events=events))
+                r0 = env.get(0)
+                out.append(dict(end="return", block=b, events=events, ret=(r0[1] if r0 and isinstance(r0[1], int) else None)))
                 break
             if k in ("goto", "drop", "assert"):
                 b = t["t"]
@@ -394,6 +449,9 @@ def peval(fn, start, known, max_paths=400, max_steps=60000):
                         if r is not None:
                             r = r if cal.endswith("::eq") else (not r)
                             env[t["dest"]["l"]] = ("c", int(r), str(int(r)))
+                    cv = _callee_constant(fn, t, known, _depth)
+                    if cv is not None:
+                        env[t["dest"]["l"]] = ("c", cv, str(cv))
                 b = t["t"]
                 continue
             if k == "switch":
